@@ -9,113 +9,6 @@
 // The grammar (run/step below) is written from the C03/C19 statement, independently of the code.
 // ===========================================================================
 
-// ---- events the listener can receive from the recogniser ----------------------------------------
-pub enum Ev {
-    Align,
-    DefCs { code: char, mode: char },
-    Esc { fin: char },
-    Basic { c: char },
-    Draw { c: char },
-    Csi { fin: char, params: Seq<u32>, private: bool },
-    Icon { text: Seq<char> },
-    Title { text: Seq<char> },
-}
-
-// ---- the documented grammar as an explicit-state recogniser ------------------------------------------
-pub enum St {
-    Ground,
-    Esc,
-    EscHash,
-    EscPct,
-    EscCs { mode: char },
-    Csi { params: Seq<u32>, cur: Seq<char>, private: bool },
-    CsiDollar,
-    OscCode,
-    OscStr { code: char, payload: Seq<char>, esc: bool },
-}
-
-pub open spec fn is_basic(c: char) -> bool { 7 <= c as u32 <= 15 }            // BEL BS HT LF VT FF CR SO SI
-pub open spec fn allowed_in_csi(c: char) -> bool { 7 <= c as u32 <= 13 }      // BEL BS HT LF VT FF CR
-pub open spec fn is_digit(c: char) -> bool { 0x30 <= c as u32 <= 0x39 }
-
-/// decimal value of a digit string (mathematical integer: no overflow)
-pub open spec fn dec_val(s: Seq<char>) -> nat
-    decreases s.len(),
-{
-    if s.len() == 0 { 0 } else { dec_val(s.drop_last()) * 10 + ((s.last() as u32 - 0x30) as nat) }
-}
-/// value of a collected CSI parameter: empty = 0, saturating at 9999
-pub open spec fn param_val(s: Seq<char>) -> u32 {
-    if s.len() == 0 { 0 } else if dec_val(s) > 9999 { 9999 } else { dec_val(s) as u32 }
-}
-/// OSC completed: code 0/1 set the icon name, 0/2 the title, to the text after the first character (the `;`)
-pub open spec fn osc_events(code: char, payload: Seq<char>) -> Seq<Ev> {
-    let text = if payload.len() > 0 { payload.drop_first() } else { payload };
-    let a = if code == '0' || code == '1' { seq![Ev::Icon { text: text }] } else { Seq::<Ev>::empty() };
-    let b = if code == '0' || code == '2' { seq![Ev::Title { text: text }] } else { Seq::<Ev>::empty() };
-    a + b
-}
-
-pub open spec fn step(st: St, c: char, utf8: bool) -> (St, Seq<Ev>) {
-    let none = Seq::<Ev>::empty();
-    match st {
-        St::Ground =>
-            if c as u32 == 0x1b { (St::Esc, none) }
-            else if c as u32 == 0x9b { (St::Csi { params: Seq::empty(), cur: Seq::empty(), private: false }, none) }
-            else if c as u32 == 0x9d { (St::OscCode, none) }
-            else if is_basic(c) { if (c as u32 == 14 || c as u32 == 15) && utf8 { (St::Ground, none) } else { (St::Ground, seq![Ev::Basic { c: c }]) } }
-            else { (St::Ground, none) },
-        St::Esc =>
-            if c == '[' { (St::Csi { params: Seq::empty(), cur: Seq::empty(), private: false }, none) }
-            else if c == ']' { (St::OscCode, none) }
-            else if c == '#' { (St::EscHash, none) }
-            else if c == '%' { (St::EscPct, none) }
-            else if c == '(' || c == ')' { (St::EscCs { mode: c }, none) }
-            else { (St::Ground, seq![Ev::Esc { fin: c }]) },
-        St::EscHash => if c == '8' { (St::Ground, seq![Ev::Align]) } else { (St::Ground, none) },
-        St::EscPct => (St::Ground, none),
-        St::EscCs { mode } => if utf8 { (St::Ground, none) } else { (St::Ground, seq![Ev::DefCs { code: c, mode: mode }]) },
-        St::Csi { params, cur, private } =>
-            if c == '?' { (St::Csi { params: params, cur: cur, private: true }, none) }
-            else if allowed_in_csi(c) { (st, seq![Ev::Basic { c: c }]) }
-            else if c == ' ' || c == '>' { (st, none) }
-            else if c as u32 == 0x18 || c as u32 == 0x1a { (St::Ground, seq![Ev::Draw { c: c }]) }
-            else if is_digit(c) { (St::Csi { params: params, cur: cur.push(c), private: private }, none) }
-            else if c == '$' { (St::CsiDollar, none) }
-            else if c == ';' { (St::Csi { params: params.push(param_val(cur)), cur: Seq::empty(), private: private }, none) }
-            else { (St::Ground, seq![Ev::Csi { fin: c, params: params.push(param_val(cur)), private: private }]) },
-        St::CsiDollar => (St::Ground, none),
-        St::OscCode => if c == 'R' || c == 'p' { (St::Ground, none) } else { (St::OscStr { code: c, payload: Seq::empty(), esc: false }, none) },
-        St::OscStr { code, payload, esc } =>
-            if !esc {
-                if c as u32 == 0x1b { (St::OscStr { code: code, payload: payload, esc: true }, none) }
-                else if c as u32 == 7 || c as u32 == 0x9c { (St::Ground, osc_events(code, payload)) }
-                else { (St::OscStr { code: code, payload: payload.push(c), esc: false }, none) }
-            } else {
-                if c == '\\' { (St::Ground, osc_events(code, payload)) }
-                else { (St::OscStr { code: code, payload: payload.push('\u{1b}').push(c), esc: false }, none) }
-            },
-    }
-}
-
-/// state and events after a whole input (recursion on the last character: appending is one unfolding)
-pub open spec fn run(inp: Seq<char>, utf8: bool) -> (St, Seq<Ev>)
-    decreases inp.len(),
-{
-    if inp.len() == 0 { (St::Ground, Seq::<Ev>::empty()) }
-    else {
-        let prev = run(inp.drop_last(), utf8);
-        let s = step(prev.0, inp.last(), utf8);
-        (s.0, prev.1 + s.1)
-    }
-}
-pub proof fn lemma_run_push(inp: Seq<char>, c: char, utf8: bool) //#lemma: C03 C19
-    ensures run(inp.push(c), utf8) == (step(run(inp, utf8).0, c, utf8).0, run(inp, utf8).1 + step(run(inp, utf8).0, c, utf8).1),
-{
-    assert(inp.push(c).drop_last() =~= inp);
-    assert(inp.push(c).last() == c);
-}
-
 // ---- stand-ins for the coroutine scope, the shared listener and the shared parser state -----------------
 pub struct Co { pub consumed: Ghost<Seq<char>> }
 pub struct Lst { pub log: Ghost<Seq<Ev>> }
